@@ -73,7 +73,18 @@ Definition locations_stable (VS : Vld.Ast.schema) (F : Vld.Ast.features) (bs : b
 Definition has_errors (o : ExeA.ArgDecode.observed) : bool :=
   match o with ExeA.ArgDecode.ObsDone _ (_ :: _) => true | _ => false end.
 
-Definition judge_composed (kind : string) (VS : Vld.Ast.schema) (F : Vld.Ast.features) (ES : ExeA.ArgData.schema)
+(** asynchronous resolvers (kinds "async"): C02 — the data is the synchronous executor's whatever
+    the schedule; which of the admissible errors is reported for a failure-null may differ, their
+    number may not (one per landing site) *)
+Definition agrees_async (m : ExeA.ArgModel.run_result) (o : ExeA.ArgDecode.observed) : bool :=
+  match m, o with
+  | ExeA.ArgModel.Done d es, ExeA.ArgDecode.ObsDone d' es' =>
+      ExeA.ArgCheck.data_agrees d d' && Nat.eqb (List.length es) (List.length es')
+      && match d with Some j => ExeA.ArgDecode.marshals j | None => true end
+  | _, _ => false
+  end.
+
+Definition judge_composed (async : bool) (kind : string) (VS : Vld.Ast.schema) (F : Vld.Ast.features) (ES : ExeA.ArgData.schema)
            (bs : bytes) (opname : bytes) (raw : list (ExeA.ArgData.name * Val.Values.jval)) (W : ExeA.ArgData.outcome) (obs : seen) : sexp :=
   let m := pipeline_model VS F ES bs opname raw W in
   let mism (what : string) := v_mismatch what [of_presult m] in
@@ -105,16 +116,17 @@ Definition judge_composed (kind : string) (VS : Vld.Ast.schema) (F : Vld.Ast.fea
   | PExecuted d errs =>
       match obs with
       | SeenExecuted o =>
-          if ExeA.ArgCheck.agrees (ExeA.ArgModel.Done d errs) o then
-            cls ((match d with Some _ => "composed-executed-data" | None => "composed-executed-null-data" end)
-                 :: (if has_errors o then ["composed-execution-errors"] else []) ++ ["nontrivial"])
+          if (if async then agrees_async (ExeA.ArgModel.Done d errs) o else ExeA.ArgCheck.agrees (ExeA.ArgModel.Done d errs) o) then
+            cls (List.app (if async then ["composed-async"] else [])
+                   ((match d with Some _ => "composed-executed-data" | None => "composed-executed-null-data" end)
+                    :: (if has_errors o then ["composed-execution-errors"] else []) ++ ["nontrivial"]))
           else mism "composed-response"
       | _ => mism "composed-class"
       end
   | PUnevaluable x =>
       match obs with
       | SeenExecuted o =>
-          if ExeA.ArgCheck.agrees x o then cls ["composed-directive-not-evaluable"; "nontrivial"]
+          if (if async then agrees_async x o else ExeA.ArgCheck.agrees x o) then cls ["composed-directive-not-evaluable"; "nontrivial"]
           else mism "composed-response-unevaluable"
       | _ => mism "composed-class"
       end
@@ -235,7 +247,7 @@ Definition check_composed (l : list sexp) : sexp :=
                 if negb (ExeA.ArgHyps.type_names_okb ES && cost_schema_accepted ES) then v_bad "schema-hypotheses-do-not-hold"
                 else if negb (schemas_agree VS ES) then v_bad "schema-encodings-disagree"
                 else
-                  let v := judge_composed kind VS F ES bs op raw W obs in
+                  let v := judge_composed (match field1 "async" l with Some a => match as_bool a with Some b => b | None => false end | None => false end) kind VS F ES bs op raw W obs in
                   let v1 := match field "cost" l with
                             | Some co => judge_cost VS F ES bs op raw co v
                             | None => v
